@@ -100,7 +100,7 @@ Section Link.
     let ann := stale_op doc f in
     b "G(" ++ hex f.(f_name) ++ semi :: oname def ++ [41] ++
     91 :: concat (map (fun v => b "X(" ++ hex v.(vd_var) ++ semi :: oname (stype s (type_name v.(vd_type))) ++ [41]) f.(f_vars)) ++ [93] ++
-    link_dirs ann def f.(f_dirs) (b "FRAGMENT_DEFINITION") ++
+    link_dirs None def f.(f_dirs) (b "FRAGMENT_DEFINITION") ++
     91 :: concat (map (link_sel ann def) f.(f_sels)) ++ [93].
 
   Definition link_doc : str := concat (map link_op doc.(q_ops)) ++ concat (map link_frag doc.(q_frags)).
